@@ -55,7 +55,11 @@ impl Case {
         if p.len() != 3 {
             return None;
         }
-        let chunks = if p[1] == "." { vec![] } else { p[1].split(',').map(unhex).collect::<Option<Vec<_>>>()? };
+        let chunks = if p[1] == "." {
+            vec![]
+        } else {
+            p[1].split(',').map(unhex).collect::<Option<Vec<_>>>()?
+        };
         let end = match p[2] {
             "quiet" => End::Quiet,
             "eof" => End::Eof,
@@ -63,7 +67,11 @@ impl Case {
             "eofhold" => End::EofHold,
             _ => return None,
         };
-        Some(Case { transport: p[0].into(), chunks, end })
+        Some(Case {
+            transport: p[0].into(),
+            chunks,
+            end,
+        })
     }
     pub fn stream(&self) -> Vec<u8> {
         self.chunks.concat()
@@ -89,10 +97,15 @@ pub fn well_framed(body: &[u8]) -> bool {
 }
 
 /// `rx.recv()` with a deadline; in cancel mode the future is dropped and re-created every slice
-async fn recv_within<R: RecvHandle>(rx: &mut R, window: Duration) -> Result<Result<bytes::Bytes, netconf::Error>, ()> {
+async fn recv_within<R: RecvHandle>(
+    rx: &mut R,
+    window: Duration,
+) -> Result<Result<bytes::Bytes, netconf::Error>, ()> {
     let slice = CANCEL_SLICE_MS.load(std::sync::atomic::Ordering::Relaxed);
     if slice == 0 {
-        return tokio::time::timeout(window, rx.recv()).await.map_err(|_| ());
+        return tokio::time::timeout(window, rx.recv())
+            .await
+            .map_err(|_| ());
     }
     let t0 = std::time::Instant::now();
     loop {
@@ -130,18 +143,31 @@ async fn observe<R: RecvHandle>(rx: &mut R, window: Duration, max_msgs: usize) -
                     Ok(Ok(_)) => "msg",
                     Ok(Err(_)) => "err",
                     Err(_) => {
-                        if thread_cpu() - c0 > window.as_secs_f64() * 0.5 { "spin" } else { "pending" }
+                        if thread_cpu() - c0 > window.as_secs_f64() * 0.5 {
+                            "spin"
+                        } else {
+                            "pending"
+                        }
                     }
                 };
                 break;
             }
             Err(_) => {
-                end = if thread_cpu() - c0 > window.as_secs_f64() * 0.5 { "spin" } else { "pending" };
+                end = if thread_cpu() - c0 > window.as_secs_f64() * 0.5 {
+                    "spin"
+                } else {
+                    "pending"
+                };
                 break;
             }
         }
     }
-    Obs { msgs, end, again, note }
+    Obs {
+        msgs,
+        end,
+        again,
+        note,
+    }
 }
 
 fn cli_script(case: &Case, gap_ms: u64) -> Vec<String> {
@@ -159,7 +185,10 @@ fn cli_script(case: &Case, gap_ms: u64) -> Vec<String> {
 }
 
 pub fn run_case(case: &Case, window: Duration) -> Obs {
-    let rt = tokio::runtime::Builder::new_current_thread().enable_all().build().unwrap();
+    let rt = tokio::runtime::Builder::new_current_thread()
+        .enable_all()
+        .build()
+        .unwrap();
     let max_msgs = case.stream().len() / MARKER.len() + 1;
     rt.block_on(async {
         match case.transport.as_str() {
@@ -169,14 +198,26 @@ pub fn run_case(case: &Case, window: Duration) -> Obs {
                 let args: Vec<&str> = script.iter().map(|s| s.as_str()).collect();
                 let t = match JunosLocal::verif_connect(exe.to_str().unwrap(), &args).await {
                     Ok(t) => t,
-                    Err(e) => return Obs { msgs: vec![], end: "err", again: "-", note: format!("connect: {e}") },
+                    Err(e) => {
+                        return Obs {
+                            msgs: vec![],
+                            end: "err",
+                            again: "-",
+                            note: format!("connect: {e}"),
+                        }
+                    }
                 };
                 let (_tx, mut rx) = t.split();
                 observe(&mut rx, window, max_msgs).await
             }
             "tls" => crate::tlsserver::run_case(case, window, max_msgs).await,
             "ssh" => crate::sshserver::run_case(case, window, max_msgs).await,
-            other => Obs { msgs: vec![], end: "err", again: "-", note: format!("unknown transport {other}") },
+            other => Obs {
+                msgs: vec![],
+                end: "err",
+                again: "-",
+                note: format!("unknown transport {other}"),
+            },
         }
     })
 }
@@ -203,7 +244,10 @@ fn bodies() -> Vec<Vec<u8>> {
         b"]]",
         b"y]]>]]]",
     ];
-    v.into_iter().map(|b| b.to_vec()).filter(|b| well_framed(b)).collect()
+    v.into_iter()
+        .map(|b| b.to_vec())
+        .filter(|b| well_framed(b))
+        .collect()
 }
 
 fn wire(ms: &[Vec<u8>]) -> Vec<u8> {
@@ -216,7 +260,11 @@ fn wire(ms: &[Vec<u8>]) -> Vec<u8> {
 }
 
 fn cut(stream: &[u8], cuts: &[usize]) -> Vec<Vec<u8>> {
-    let mut cs: Vec<usize> = cuts.iter().copied().filter(|&c| c > 0 && c < stream.len()).collect();
+    let mut cs: Vec<usize> = cuts
+        .iter()
+        .copied()
+        .filter(|&c| c > 0 && c < stream.len())
+        .collect();
     cs.sort();
     cs.dedup();
     let mut out = vec![];
@@ -252,13 +300,21 @@ pub fn gen_cases(transport: &str, opts: &Opts, rng: &mut Rng) -> Vec<Case> {
             ends.push(off);
         }
         // (a) whole stream in one unit (k messages in one chunk)
-        cases.push(Case { transport: transport.into(), chunks: vec![s.clone()], end: End::Quiet });
+        cases.push(Case {
+            transport: transport.into(),
+            chunks: vec![s.clone()],
+            end: End::Quiet,
+        });
         // (b) every single cut position inside and around each delimiter (the five interior ones in particular)
         for &e in &ends {
             let lo = e.saturating_sub(MARKER.len() + 1);
             for c in lo..=(e + 1).min(s.len()) {
                 if si < 4 || thorough || rng.chance(1, 2) {
-                    cases.push(Case { transport: transport.into(), chunks: cut(&s, &[c]), end: End::Quiet });
+                    cases.push(Case {
+                        transport: transport.into(),
+                        chunks: cut(&s, &[c]),
+                        end: End::Quiet,
+                    });
                 }
             }
         }
@@ -275,11 +331,19 @@ pub fn gen_cases(transport: &str, opts: &Opts, rng: &mut Rng) -> Vec<Case> {
                     cuts.push(rng.below(s.len() + 1));
                 }
             }
-            cases.push(Case { transport: transport.into(), chunks: cut(&s, &cuts), end: End::Quiet });
+            cases.push(Case {
+                transport: transport.into(),
+                chunks: cut(&s, &cuts),
+                end: End::Quiet,
+            });
         }
         // (d) byte-by-byte for short streams
         if s.len() <= 24 {
-            cases.push(Case { transport: transport.into(), chunks: s.iter().map(|b| vec![*b]).collect(), end: End::Quiet });
+            cases.push(Case {
+                transport: transport.into(),
+                chunks: s.iter().map(|b| vec![*b]).collect(),
+                end: End::Quiet,
+            });
         }
         // (e) C07: peer closes / aborts at chosen points: idle (after a whole message), mid-message,
         //     mid-delimiter, before anything
@@ -292,33 +356,77 @@ pub fn gen_cases(transport: &str, opts: &Opts, rng: &mut Rng) -> Vec<Case> {
         }
         if si < 6 || thorough {
             for &cp in &close_points {
-                let ends: Vec<End> = if transport == "ssh" { vec![End::Eof, End::Abort, End::EofHold] } else { vec![End::Eof, End::Abort] };
+                let ends: Vec<End> = if transport == "ssh" {
+                    vec![End::Eof, End::Abort, End::EofHold]
+                } else {
+                    vec![End::Eof, End::Abort]
+                };
                 for end in ends {
                     let pre = &s[..cp];
-                    let cuts: Vec<usize> = if pre.len() > 3 { vec![rng.below(pre.len())] } else { vec![] };
-                    let chunks = if pre.is_empty() { vec![] } else { cut(pre, &cuts) };
-                    cases.push(Case { transport: transport.into(), chunks, end });
+                    let cuts: Vec<usize> = if pre.len() > 3 {
+                        vec![rng.below(pre.len())]
+                    } else {
+                        vec![]
+                    };
+                    let chunks = if pre.is_empty() {
+                        vec![]
+                    } else {
+                        cut(pre, &cuts)
+                    };
+                    cases.push(Case {
+                        transport: transport.into(),
+                        chunks,
+                        end,
+                    });
                 }
             }
         }
     }
     // (f) large messages: the delimiter straddles the sizes at which buffers / records / packets end
     //     (BufReader 8 KiB, TLS record 16 KiB, SSH packet 32 KiB, pipe 64 KiB)
-    let sizes: Vec<usize> = if transport == "cli" { vec![4096, 8192, 16384, 32768] } else { vec![4096, 8192, 16384, 16385, 32768, 65536, 70000] };
+    let sizes: Vec<usize> = if transport == "cli" {
+        vec![4096, 8192, 16384, 32768]
+    } else {
+        vec![4096, 8192, 16384, 16385, 32768, 65536, 70000]
+    };
     for &l in &sizes {
         for shift in [0usize, 3] {
             // the delimiter of the first message begins `shift` bytes before offset l
             let n = l - shift;
-            let mut body: Vec<u8> = (0..n).map(|i| if i % 97 == 96 { b']' } else { b'a' + (i % 23) as u8 }).collect();
+            let mut body: Vec<u8> = (0..n)
+                .map(|i| {
+                    if i % 97 == 96 {
+                        b']'
+                    } else {
+                        b'a' + (i % 23) as u8
+                    }
+                })
+                .collect();
             if let Some(x) = body.last_mut() {
                 *x = b'z';
             }
             let s = wire(&[body, b"<a/>".to_vec()]);
-            cases.push(Case { transport: transport.into(), chunks: vec![s.clone()], end: End::Quiet });
-            cases.push(Case { transport: transport.into(), chunks: cut(&s, &[l]), end: End::Quiet });
+            cases.push(Case {
+                transport: transport.into(),
+                chunks: vec![s.clone()],
+                end: End::Quiet,
+            });
+            cases.push(Case {
+                transport: transport.into(),
+                chunks: cut(&s, &[l]),
+                end: End::Quiet,
+            });
             if shift == 3 && (thorough || l <= 16385) {
-                cases.push(Case { transport: transport.into(), chunks: cut(&s, &[l]), end: End::Eof });
-                cases.push(Case { transport: transport.into(), chunks: cut(&s[..l], &[l / 2]), end: End::Eof });
+                cases.push(Case {
+                    transport: transport.into(),
+                    chunks: cut(&s, &[l]),
+                    end: End::Eof,
+                });
+                cases.push(Case {
+                    transport: transport.into(),
+                    chunks: cut(&s[..l], &[l / 2]),
+                    end: End::Eof,
+                });
             }
         }
     }
@@ -328,8 +436,12 @@ pub fn gen_cases(transport: &str, opts: &Opts, rng: &mut Rng) -> Vec<Case> {
 pub fn main(opts: &Opts) {
     let mut rng = Rng::new(opts.seed);
     let mut sink = Sink::new();
-    let mut transports: Vec<String> =
-        opts.extra.iter().filter(|e| ["cli", "tls", "ssh"].contains(&e.as_str())).cloned().collect();
+    let mut transports: Vec<String> = opts
+        .extra
+        .iter()
+        .filter(|e| ["cli", "tls", "ssh"].contains(&e.as_str()))
+        .cloned()
+        .collect();
     if transports.is_empty() {
         transports = vec!["cli".into(), "tls".into(), "ssh".into()];
     }
@@ -364,7 +476,8 @@ pub fn main(opts: &Opts) {
     if cases.iter().any(|c| c.transport == "tls") {
         crate::tlsserver::init();
     }
-    let cancel_mode = opts.extra.iter().any(|e| e == "only-cancel") || std::env::var("VH_FRAME_CANCEL").is_ok();
+    let cancel_mode =
+        opts.extra.iter().any(|e| e == "only-cancel") || std::env::var("VH_FRAME_CANCEL").is_ok();
     if cancel_mode {
         GAP_MS.store(12, std::sync::atomic::Ordering::Relaxed);
         CANCEL_SLICE_MS.store(3, std::sync::atomic::Ordering::Relaxed);
@@ -384,7 +497,10 @@ pub fn main(opts: &Opts) {
                 msgs: vec![],
                 end: "spin",
                 again: "-",
-                note: format!("recv() did not return to the runtime within {}s (thread watchdog)", limit.as_secs()),
+                note: format!(
+                    "recv() did not return to the runtime within {}s (thread watchdog)",
+                    limit.as_secs()
+                ),
             }),
             Err(Stuck::Skipped) => {
                 skipped += 1;
@@ -396,9 +512,14 @@ pub fn main(opts: &Opts) {
     for (c, o) in cases.iter().zip(obs) {
         let Some(o) = o else { continue };
         let d = c.descr();
-        let state = match c.end { End::Quiet => "open", End::Eof | End::EofHold => "closed", End::Abort => "aborted" };
+        let state = match c.end {
+            End::Quiet => "open",
+            End::Eof | End::EofHold => "closed",
+            End::Abort => "aborted",
+        };
         // after an abortive close the bytes the client saw are not determined by the script
-        let complete = c.end != End::Abort || o.msgs.concat().len() + crate::frame::MARKER.len() > c.stream().len();
+        let complete = c.end != End::Abort
+            || o.msgs.concat().len() + crate::frame::MARKER.len() > c.stream().len();
         let is_ssh = c.transport == "ssh";
         let impl_obs = format!("msgs={} end={} again={}", hexlist(&o.msgs), o.end, o.again);
         if is_ssh {
@@ -408,7 +529,13 @@ pub fn main(opts: &Opts) {
                 End::Eof | End::EofHold => evs.push("e".into()),
                 End::Abort => evs.push("c".into()),
             }
-            if complete { sink.corr(&d, format!("frame pumpobs fixed {}", list(&evs)), impl_obs.clone()); }
+            if complete {
+                sink.corr(
+                    &d,
+                    format!("frame pumpobs fixed {}", list(&evs)),
+                    impl_obs.clone(),
+                );
+            }
         } else {
             let mut rs: Vec<String> = c.chunks.iter().map(|b| format!("d{}", hex(b))).collect();
             match c.end {
@@ -416,7 +543,13 @@ pub fn main(opts: &Opts) {
                 End::Eof | End::EofHold => rs.push("e".into()),
                 End::Abort => rs.push("x".into()),
             }
-            if complete { sink.corr(&d, format!("frame recvobs fixed {}", list(&rs)), impl_obs.clone()); }
+            if complete {
+                sink.corr(
+                    &d,
+                    format!("frame recvobs fixed {}", list(&rs)),
+                    impl_obs.clone(),
+                );
+            }
         }
         sink.spec(
             &d,
@@ -439,7 +572,10 @@ pub fn main(opts: &Opts) {
         }
     }
     if cancel_mode {
-        sink.add("recv_futures_dropped_unfinished", CANCELLED.load(std::sync::atomic::Ordering::Relaxed));
+        sink.add(
+            "recv_futures_dropped_unfinished",
+            CANCELLED.load(std::sync::atomic::Ordering::Relaxed),
+        );
         sink.notes.push("cancel mode: every recv() future is dropped after 3 ms without a result and re-created; the peers pause 12 ms between chunks".into());
     }
     sink.add("wall_ms", t0.elapsed().as_millis() as u64);
